@@ -134,11 +134,17 @@ class Pool:
         out: "queue.Queue[Any]" = queue.Queue()
         DONE = object()
 
+        feeder_error: list[BaseException] = []
+
         def feeder() -> None:
-            for t in tasks:
-                q.put(t)
-            for _ in self.workers:
-                q.put(DONE)
+            try:
+                for t in tasks:
+                    q.put(t)
+            except BaseException as e:   # a crashing task generator must not hang the pool
+                feeder_error.append(e)
+            finally:
+                for _ in self.workers:
+                    q.put(DONE)
 
         def runner(w: _Worker) -> None:
             while True:
@@ -163,6 +169,8 @@ class Pool:
                 done += 1
                 continue
             yield item
+        if feeder_error:
+            raise RuntimeError(f"task generator failed: {feeder_error[0]!r}") from feeder_error[0]
 
     def map(self, tasks: Iterable[dict[str, Any]], timeout: float = 120.0) -> list[tuple[dict[str, Any], dict[str, Any]]]:
         return list(self.imap(tasks, timeout))
